@@ -29,6 +29,8 @@ func VerifC01SetHistoricWindow(s *Agent, w uint32) { s.historicWindow.Store(w) }
 type VerifC01Agent struct {
 	A     *Agent
 	shard *Shard
+	padMu sync.Mutex
+	pads  [][]byte
 }
 
 type VerifC01Cbd struct {
@@ -117,10 +119,20 @@ func (v *VerifC01Agent) PopHistoric(nowUnix uint32) (VerifC01Cbd, bool) {
 	return fromCbd(c), ok
 }
 
-// HistoricOne = real sendHistoric for a popped second (the rest of the goSendHistoric loop body).
+// HistoricOne = real sendHistoric for a popped second (the rest of the goSendHistoric loop body). As in goSendHistoric,
+// a sender keeps ONE scratch pad for every second it reads from disk: the pads of finished senders are reused (LIFO).
 func (v *VerifC01Agent) HistoricOne(ctx context.Context, c VerifC01Cbd) {
+	v.padMu.Lock()
 	var scratch []byte
+	if n := len(v.pads); n != 0 {
+		scratch = v.pads[n-1]
+		v.pads = v.pads[:n-1]
+	}
+	v.padMu.Unlock()
 	v.shard.sendHistoric(ctx, c.cbd(), &scratch)
+	v.padMu.Lock()
+	v.pads = append(v.pads, scratch)
+	v.padMu.Unlock()
 }
 
 // CheckOutOfWindow = real checkOutOfWindow with an explicit clock.
